@@ -208,9 +208,11 @@ class Module(ABC):
 
         # intercepts calls to channels
         if key in [c._name for c in self.base.channels]:
-            channel_names = [c._name for c in self.channels]
-            inds = self.nodes.index[self.nodes[key]].to_numpy()
-            view = self.select(inds) if key in channel_names else self.select(None)
+            # If no compartment in view has the channel, then nothing is in view (as for
+            # groups); `select(None)` would select everything.
+            has_channel = self.nodes[key].fillna(False).astype(bool).to_numpy()
+            inds = self.nodes.index[has_channel].to_numpy()
+            view = self.select(inds)
             view._set_controlled_by_param(key)
             return view
 
@@ -220,11 +222,8 @@ class Module(ABC):
                 "global_edge_index"
             ].to_numpy()
             orig_scope = self._scope
-            view = (
-                self.scope("global").edge(syn_inds).scope(orig_scope)
-                if key in self.synapse_names
-                else self.select(None)
-            )
+            # If no synapse in view is of this type, then nothing is in view.
+            view = self.scope("global").edge(syn_inds).scope(orig_scope)
             view._set_controlled_by_param(key)  # overwrites param set by edge
             # Ensure synapse param sharing works with `edge`
             # `edge` will be removed as part of #463
